@@ -21,15 +21,15 @@ Proof.
 Qed.
 
 (** what ensureValidString accepts is a string of XML characters *)
-Lemma valid_is_xml : forall x n s, (length s <= n)%nat -> units16 s -> valid_string x s = true -> xml_string x s = true.
+Lemma valid_is_xml : forall refs x n s, (length s <= n)%nat -> units16 s -> valid_string refs x s = true -> xml_string x s = true.
 Proof.
-  intros x. induction n as [|n IH]; intros s Hn Hu Hv.
+  intros refs x. induction n as [|n IH]; intros s Hn Hu Hv.
   - destruct s; [reflexivity|cbn [length] in Hn; lia].
   - destruct s as [|c r]; [reflexivity|]. cbn [length] in Hn. inversion Hu as [|c' r' Hc Hr]; subst.
     cbn [valid_string] in Hv. cbn [xml_string].
-    destruct (char_unit x c) eqn:Ec.
+    destruct (char_unit refs x c) eqn:Ec.
     + assert (Hb : bmp_char x c = true).
-      { unfold char_unit, char11_unit, char10_unit in Ec. unfold bmp_char. destruct x; lia. }
+      { unfold char_unit, char11_unit, char11_data, char10_unit in Ec. unfold bmp_char. destruct x, refs; lia. }
       rewrite Hb. apply IH; [lia|exact Hr|exact Hv].
     + destruct (is_high c) eqn:Eh; [|discriminate]. rewrite is_high_spec in Eh by exact Hc.
       assert (Hb : bmp_char x c = false).
@@ -49,22 +49,27 @@ Lemma text_node_roundtrip : forall cf s out, c_fixed cf = true -> can_uniform (c
   ser_node cf (Text s) = Ok out -> unescape_parse false (c_xml11 cf) out = Some s.
 Proof.
   intros cf s out Hf Hu H16 H. cbn [ser_node] in H.
-  destruct (valid_string (c_xml11 cf) s) eqn:Ev; cbn [negb] in H; [|discriminate].
+  destruct (valid_string (c_fixed cf) (c_xml11 cf) s) eqn:Ev; cbn [negb] in H; [|discriminate].
   injection H as H. subst out. rewrite data16_fixed by exact Hf.
-  apply roundtrip_text; [exact Hu|]. apply (valid_is_xml _ (length s) s (le_n _) H16 Ev).
+  apply roundtrip_text; [exact Hu|]. apply (valid_is_xml _ _ (length s) s (le_n _) H16 Ev).
 Qed.
 
-(** an attribute: name="value" with the value read back as the attribute's value *)
+(** an attribute: an unrepresentable name is refused; otherwise name="value" with the value read back as the
+    attribute's value *)
 Lemma attr_roundtrip : forall cf n v out, c_fixed cf = true -> can_uniform (c_can cf) -> units16 v ->
   ser_attrs cf [(n, v)] = Ok out ->
-  out = [32] ++ data16 cf NoEscapes n ++ [61; 34] ++ data16 cf AttrEscapes v ++ [34] /\
+  forallb (c_can cf) n = true /\
+  out = [32] ++ n ++ [61; 34] ++ data16 cf AttrEscapes v ++ [34] /\
   unescape_parse true (c_xml11 cf) (data16 cf AttrEscapes v) = Some v.
 Proof.
-  intros cf n v out Hf Hu H16 H. cbn [ser_attrs] in H.
-  destruct (valid_string (c_xml11 cf) v) eqn:Ev; cbn [negb] in H; [|discriminate].
-  cbn [bind] in H. injection H as H. subst out. split; [cbn [app]; reflexivity|].
+  intros cf n v out Hf Hu H16 H. cbn [ser_attrs] in H. rewrite Hf in H. unfold markup in H.
+  change (forallb (c_can cf) (32 :: n)) with (c_can cf 32 && forallb (c_can cf) n) in H.
+  destruct (c_can cf 32); cbn [andb bind] in H; [|discriminate].
+  destruct (forallb (c_can cf) n) eqn:En; cbn [bind] in H; [|discriminate].
+  destruct (valid_string true (c_xml11 cf) v) eqn:Ev; cbn [negb] in H; [|discriminate].
+  cbn [bind] in H. injection H as H. subst out. split; [reflexivity|]. split; [cbn [app]; reflexivity|].
   rewrite data16_fixed by exact Hf.
-  apply roundtrip_attr; [exact Hu|]. apply (valid_is_xml _ (length v) v (le_n _) H16 Ev).
+  apply roundtrip_attr; [exact Hu|]. apply (valid_is_xml _ _ (length v) v (le_n _) H16 Ev).
 Qed.
 
 (** a CDATASection node under split-cdata-sections: the written sections read back as the node's data *)
@@ -72,6 +77,6 @@ Lemma cdata_node_roundtrip : forall cf s out, c_fixed cf = true -> c_split cf = 
   ser_node cf (CData s) = Ok out -> parse_sections (S (length s)) out = Some s.
 Proof.
   intros cf s out Hf Hs Hc H. cbn [ser_node] in H. rewrite Hs, Hf in H.
-  destruct (valid_string (c_xml11 cf) s); cbn [negb] in H; [|discriminate].
+  destruct (valid_string false (c_xml11 cf) s); cbn [negb] in H; [|discriminate].
   injection H as H. subst out. apply cdata_reparse. exact Hc.
 Qed.
